@@ -38,7 +38,7 @@ theorem stepUnordered_perm {α : Type} (n : Nat) (s : BufSt α) (e : SchedEv) :
       simp only [List.getElem?_eq_getElem hlt, Option.map_some, Option.toList_some]
       have hp := (unordered_perm_eraseIdx l j hlt).map (·.1)
       simp only [List.map_cons] at hp
-      rw [List.append_assoc, List.append_assoc, List.append_assoc, List.append_assoc]
+      simp only [List.append_assoc]
       apply List.Perm.append_left
       rw [← hfst, ← List.append_assoc]
       apply List.Perm.append_right
@@ -56,7 +56,7 @@ theorem unordered_foldl_perm {α : Type} (n : Nat) (sched : List SchedEv) (s0 : 
     exact (ih (s0.stepUnordered n e)).trans (stepUnordered_perm n s0 e)
 
 theorem unordered_run_perm {α : Type} (n : Nat) (xs : List α) (sched : List SchedEv) :
-    let s := sched.foldl (fun s e => s.stepUnordered n e) ⟨xs, [], []⟩
+    let s : BufSt α := sched.foldl (fun s e => s.stepUnordered n e) ⟨xs, [], []⟩
     List.Perm (s.out ++ s.inflight.map (·.1) ++ s.input) xs := by
   intro s
   have h := unordered_foldl_perm n sched (⟨xs, [], []⟩ : BufSt α)
